@@ -107,12 +107,13 @@ def build_cases(chk, walks, thorough, only=None, obj_walks=None):
                           "seeds": real_seeds(rng), "genseed": GENSEED, "objseed": OBJSEED, "start": rng.randrange(0, 2**32),
                           "flavour": rng.randrange(0, 4),
                           # the FORM in which the seed / the generator is handed over (see lib_seeded.SEEDFORMS / GENFORMS)
+                          "prefit": rng.choice(["none", "none", "other", "failing"]),     # class entries: the object's past
                           "seedform": rng.choice(["int"] * 8 + ["np.int64", "np.uint32"]),
                           "genform": rng.choice(["RandomState"] * 15 + ["subclass"] * 4 + ["Generator"])})
     return cases
 
 
-INT_FIELDS = ("s", "res", "glob")
+INT_FIELDS = ("s", "res", "glob", "inp")
 STR_FIELDS = ("id", "tr", "ev", "entry", "e", "g", "o", "out")
 
 
